@@ -190,10 +190,25 @@ def r8_2b(ctx, rc):
     suboperation of a reused record."""
     from .apply_rules import subtree_walk_rule
     C = ctx.R.cache
+    prog = ctx.prog
     for name in ('_assert_no_repeats', '_use_cached_operation'):
         F = ctx.E.func(C + '.' + name)
+        # the walk itself may live in a traversal helper (a generator that
+        # yields the records of the tree) that F loops over
+        W = F
+        if not any(isinstance(n, ast.For) and isinstance(
+                n.iter, ast.Attribute) and n.iter.attr == 'suboperations'
+                for n in ast.walk(F.node)):
+            for n in ast.walk(F.node):
+                if isinstance(n, ast.For) and isinstance(n.iter, ast.Call):
+                    for g in prog.resolve_call(n.iter, F):
+                        if isinstance(g, Func) and g.cls == F.cls and \
+                                not g.is_public and any(
+                                    isinstance(y, (ast.Yield, ast.YieldFrom))
+                                    for y in ast.walk(g.node)):
+                            W = g
         subtree_walk_rule(
-            ctx, rc, F, lambda x, F=F: Q.is_call(x, F.qualname),
+            ctx, rc, W, lambda x, W=W: Q.is_call(x, W.qualname),
             'recursing into it', 'subtree-walk')
 
 
@@ -203,8 +218,11 @@ def _builder_graph(ctx, fname):
     G = guards(ctx)
     stop = G.opaque
 
+    wrappers = ctx.backup_wrappers()
+
     def inline(g):
-        return g.cls == R.builder and not g.is_public and g not in stop
+        return g in wrappers or (
+            g.cls == R.builder and not g.is_public and g not in stop)
     return F, ctx.E.super(F, inline)
 
 
